@@ -119,3 +119,84 @@ def constructor_only_state(ctx, modname, clsname, readers, why):
     for name, a, node, how in found:
         ctx.violate('%s:%s.%s' % (modname, clsname, name), '%s.%s %s self.%s (`%s`), which %s read; only the constructor sets it' % (clsname, name, how, a, norm(node)[:80], ' / '.join(readers)), node, why)
     return len(read)
+
+
+_SHARED_FIXTURE = """
+class Table:
+    _index = {}
+    _names = []
+    LIMIT = 5
+
+    def __init__(self, name):
+        self._rows = load(name)
+
+    def bad(self, w):
+        if not self._index:
+            self._index.update((x, i) for i, x in enumerate(self._rows))
+        return self._index[w]
+
+    def bad2(self, w):
+        self._names.append(w)
+
+    def good(self, w):
+        if not self._index:
+            self._index = dict((x, i) for i, x in enumerate(self._rows))
+        return self._index[w]
+"""
+
+
+def _mutable_literal(v):
+    return isinstance(v, (ast.Dict, ast.List, ast.Set)) or (isinstance(v, ast.Call) and isinstance(v.func, ast.Name) and v.func.id in ('dict', 'list', 'set', 'defaultdict', 'OrderedDict') )
+
+
+def class_shared_mutations(cls):
+    """[(method, attribute, node)]: a mutable container defined in the CLASS body (one object for all instances) is changed in place through
+    self / cls / the class name by a method that does not first give the instance its own container"""
+    shared = set()
+    for st in cls.body:
+        if isinstance(st, ast.Assign) and _mutable_literal(st.value):
+            for t in st.targets:
+                if isinstance(t, ast.Name):
+                    shared.add(t.id)
+    out = []
+    if not shared:
+        return shared, out
+    for f in cls.body:
+        if not isinstance(f, ast.FunctionDef):
+            continue
+        own = set()
+        for a in ast.walk(f):
+            if isinstance(a, ast.Assign):
+                for t in a.targets:
+                    if isinstance(t, ast.Attribute) and isinstance(t.value, ast.Name) and t.value.id == 'self' and t.attr in shared:
+                        own.add(t.attr)
+        for n in ast.walk(f):
+            base = None
+            if isinstance(n, ast.Call) and isinstance(n.func, ast.Attribute) and n.func.attr in MUTATORS:
+                base = n.func.value
+            elif isinstance(n, (ast.Assign, ast.AugAssign)):
+                for t in (n.targets if isinstance(n, ast.Assign) else [n.target]):
+                    if isinstance(t, ast.Subscript):
+                        base = t.value
+                    elif isinstance(n, ast.AugAssign) and isinstance(t, ast.Attribute):
+                        base = t
+            if isinstance(base, ast.Attribute) and isinstance(base.value, ast.Name) and base.value.id in ('self', 'cls', cls.name) and base.attr in shared and base.attr not in own:
+                out.append((f.name, base.attr, n))
+    return shared, out
+
+
+def class_shared_state(ctx, modname, clsname, why):
+    fx = ast.parse(_SHARED_FIXTURE).body[0]
+    _, found = class_shared_mutations(fx)
+    got = sorted((m, a) for m, a, _ in found)
+    if got != [('bad', '_index'), ('bad2', '_names')]:
+        raise AnalysisError('class-shared-state fixture classified %s' % got)
+    ctx.saw('class-shared-state self-test on the embedded fixture: %s' % got)
+    m = ctx.repo.mod(modname)
+    if clsname not in m.classes:
+        raise AnalysisError('anchor class %s:%s vanished' % (modname, clsname))
+    shared, found = class_shared_mutations(m.classes[clsname])
+    ctx.saw('%s: mutable containers defined in the class body: %s' % (clsname, sorted(shared)))
+    for meth, attr, node in found:
+        ctx.violate('%s:%s.%s' % (modname, clsname, meth), '%s.%s changes the CLASS-level container %s in place (`%s`): every %s object of the process shares it' % (clsname, meth, attr, norm(node)[:70], clsname), node, why)
+    return len(shared)
